@@ -37,6 +37,10 @@ Record host := {
   h_registry : list (list Z);                 (* names of the built-ins (generated) *)
   h_varset : list (list Z * list value);      (* per name: what a callVariable listener hands to the setter, in order *)
   h_funset : list (list Z * list value);      (* per name: what a callFunction listener hands to the setter, in order *)
+  h_oracle : list Z -> list value -> option (res value);
+    (* the registered built-ins OUTSIDE the model: an arbitrary function of name and arguments - returns a value, raises
+       an XLError (RRaise), raises another exception (RExc); None = not described (the runner's host: RUnmodelled).  Theorems
+       stated for every host therefore hold whatever those built-ins return or raise, provided they return. *)
 }.
 
 Inductive event :=
@@ -108,7 +112,13 @@ Definition call_function (h : host) (name : list Z) (args : list value) : res va
         | Some (ROk v) => fire v
         | Some (RRaise e) => fire (VErr e)
         | Some RExc => (RExc, [])
-        | Some RUnmodelled | None => (RUnmodelled, [])
+        | Some RUnmodelled | None =>
+            match h_oracle h name args with
+            | Some (ROk v) => fire v
+            | Some (RRaise e) => fire (VErr e)
+            | Some RExc => (RExc, [])
+            | Some RUnmodelled | None => (RUnmodelled, [])
+            end
         end
       else (RRaise ENAME, [])
   end.
